@@ -238,3 +238,227 @@ package mux
 //@   atcall mux.Router.serveContext [C07,C01] fresh-context: arg0 == r && arg1 == w && arg2 == req && arg3 != nil && len(arg3.params) == 0
 //@   atcall types.Context.Destroy [C16] release: arg0 == callresult("types.NewContext", 1, 0)
 //@   ensures [C16] released: called("types.Context.Destroy", 1)
+
+// ---------------------------------------------------------------- router.go: facades (C19) and registration
+
+//@ pred isConcat(r []types.Middleware, a []types.Middleware, b []types.Middleware) = len(r) == len(a) + len(b) &&
+//@      (forall i int :: 0 <= i && i < len(a) ==> r[i] == a[i]) && (forall i int :: 0 <= i && i < len(b) ==> r[len(a) + i] == b[i])
+//@ pred sameSeq(r []types.Middleware, a []types.Middleware) = len(r) == len(a) && (forall i int :: 0 <= i && i < len(a) ==> r[i] == a[i])
+//@ pred one(ms []string, m string) = len(ms) == 1 && ms[0] == m
+//
+//@ fn Prefix.Pattern
+//@   requires p != nil
+//@   nopanic
+//@   ensures [C19] value: result == p.pattern
+//
+//@ fn Resource.Pattern
+//@   requires r != nil
+//@   nopanic
+//@   ensures [C19] value: result == r.pattern
+//
+//@ fn Router.Handle
+//@   requires r != nil && r.tree != nil
+//@   maypanic
+//@   callsonly [C19,C17] slices.Concat, tree.Tree.Add
+//@   atcall tree.Tree.Add [C19,C09,C17] delegate: arg0 == r.tree && arg1 == pattern && arg2 == h && isConcat(arg3, m, r.ms) && arg4 == methods
+//@   ensures [C19] self: result == r
+//@   ensures [C17] accepted: callresult("tree.Tree.Add", 1, 0) == nil
+//
+//@ fn Router.Get
+//@   requires r != nil && r.tree != nil
+//@   callsonly [C19] mux.Router.Handle
+//@   atcall mux.Router.Handle [C19] delegate: arg0 == r && arg1 == pattern && arg2 == h && arg3 == m && one(arg4, "GET")
+//@   ensures [C19] self: result == r
+//
+//@ fn Router.Post
+//@   requires r != nil && r.tree != nil
+//@   callsonly [C19] mux.Router.Handle
+//@   atcall mux.Router.Handle [C19] delegate: arg0 == r && arg1 == pattern && arg2 == h && arg3 == m && one(arg4, "POST")
+//@   ensures [C19] self: result == r
+//
+//@ fn Router.Delete
+//@   requires r != nil && r.tree != nil
+//@   callsonly [C19] mux.Router.Handle
+//@   atcall mux.Router.Handle [C19] delegate: arg0 == r && arg1 == pattern && arg2 == h && arg3 == m && one(arg4, "DELETE")
+//@   ensures [C19] self: result == r
+//
+//@ fn Router.Put
+//@   requires r != nil && r.tree != nil
+//@   callsonly [C19] mux.Router.Handle
+//@   atcall mux.Router.Handle [C19] delegate: arg0 == r && arg1 == pattern && arg2 == h && arg3 == m && one(arg4, "PUT")
+//@   ensures [C19] self: result == r
+//
+//@ fn Router.Patch
+//@   requires r != nil && r.tree != nil
+//@   callsonly [C19] mux.Router.Handle
+//@   atcall mux.Router.Handle [C19] delegate: arg0 == r && arg1 == pattern && arg2 == h && arg3 == m && one(arg4, "PATCH")
+//@   ensures [C19] self: result == r
+//
+//@ fn Router.Any
+//@   requires r != nil && r.tree != nil
+//@   callsonly [C19] mux.Router.Handle
+//@   atcall mux.Router.Handle [C19] delegate: arg0 == r && arg1 == pattern && arg2 == h && arg3 == m && len(arg4) == 0
+//@   ensures [C19] self: result == r
+//
+//@ fn Router.Remove
+//@   requires r != nil && r.tree != nil
+//@   callsonly [C19] tree.Tree.Remove
+//@   atcall tree.Tree.Remove [C19] delegate: arg0 == r.tree && arg1 == pattern && arg2 == methods
+//
+//@ fn Router.Clean
+//@   requires r != nil && r.tree != nil
+//@   callsonly [C19] tree.Tree.Clean
+//@   atcall tree.Tree.Clean [C19] delegate: arg0 == r.tree && arg1 == ""
+//
+//@ fn Router.Routes
+//@   requires r != nil && r.tree != nil
+//@   callsonly [C19] tree.Tree.Routes
+//@   ensures [C19] delegate: result == callresult("tree.Tree.Routes", 1, 0)
+//
+//@ fn Router.Prefix
+//@   nopanic
+//@   ensures [C19] fields: result != nil && fresh(result) && result.router == r && result.pattern == prefix && sameSeq(result.ms, m)
+//@   ensures [C19] cloned: len(m) > 0 ==> fresh(result.ms)
+//
+//@ fn Router.Resource
+//@   nopanic
+//@   ensures [C19] fields: result != nil && fresh(result) && result.router == r && result.pattern == pattern && sameSeq(result.ms, m)
+//@   ensures [C19] cloned: len(m) > 0 ==> fresh(result.ms)
+//
+//@ fn Prefix.Handle
+//@   requires p != nil && p.router != nil && p.router.tree != nil
+//@   callsonly [C19] mux.Prefix.Pattern, slices.Concat, mux.Router.Handle
+//@   atcall mux.Router.Handle [C19,C09] delegate: arg0 == p.router && arg1 == p.pattern + pattern && arg2 == h && isConcat(arg3, m, p.ms) && arg4 == methods
+//@   ensures [C19] self: result == p
+//
+//@ fn Prefix.Get
+//@   requires p != nil && p.router != nil && p.router.tree != nil
+//@   callsonly [C19] mux.Prefix.Handle
+//@   atcall mux.Prefix.Handle [C19] delegate: arg0 == p && arg1 == pattern && arg2 == h && arg3 == m && one(arg4, "GET")
+//@   ensures [C19] self: result == p
+//
+//@ fn Prefix.Post
+//@   requires p != nil && p.router != nil && p.router.tree != nil
+//@   callsonly [C19] mux.Prefix.Handle
+//@   atcall mux.Prefix.Handle [C19] delegate: arg0 == p && arg1 == pattern && arg2 == h && arg3 == m && one(arg4, "POST")
+//@   ensures [C19] self: result == p
+//
+//@ fn Prefix.Delete
+//@   requires p != nil && p.router != nil && p.router.tree != nil
+//@   callsonly [C19] mux.Prefix.Handle
+//@   atcall mux.Prefix.Handle [C19] delegate: arg0 == p && arg1 == pattern && arg2 == h && arg3 == m && one(arg4, "DELETE")
+//@   ensures [C19] self: result == p
+//
+//@ fn Prefix.Put
+//@   requires p != nil && p.router != nil && p.router.tree != nil
+//@   callsonly [C19] mux.Prefix.Handle
+//@   atcall mux.Prefix.Handle [C19] delegate: arg0 == p && arg1 == pattern && arg2 == h && arg3 == m && one(arg4, "PUT")
+//@   ensures [C19] self: result == p
+//
+//@ fn Prefix.Patch
+//@   requires p != nil && p.router != nil && p.router.tree != nil
+//@   callsonly [C19] mux.Prefix.Handle
+//@   atcall mux.Prefix.Handle [C19] delegate: arg0 == p && arg1 == pattern && arg2 == h && arg3 == m && one(arg4, "PATCH")
+//@   ensures [C19] self: result == p
+//
+//@ fn Prefix.Any
+//@   requires p != nil && p.router != nil && p.router.tree != nil
+//@   callsonly [C19] mux.Prefix.Handle
+//@   atcall mux.Prefix.Handle [C19] delegate: arg0 == p && arg1 == pattern && arg2 == h && arg3 == m && len(arg4) == 0
+//@   ensures [C19] self: result == p
+//
+//@ fn Prefix.Remove
+//@   requires p != nil && p.router != nil && p.router.tree != nil
+//@   callsonly [C19] mux.Prefix.Pattern, mux.Router.Remove
+//@   atcall mux.Router.Remove [C19] delegate: arg0 == p.router && arg1 == p.pattern + pattern && arg2 == methods
+//
+//@ fn Prefix.Clean
+//@   requires p != nil && p.router != nil && p.router.tree != nil
+//@   callsonly [C19] mux.Prefix.Pattern, tree.Tree.Clean
+//@   atcall tree.Tree.Clean [C19] delegate: arg0 == p.router.tree && arg1 == p.pattern
+//
+//@ fn Prefix.URL
+//@   requires p != nil && p.router != nil && p.router.tree != nil
+//@   callsonly [C19] mux.Prefix.Pattern, mux.Router.URL
+//@   atcall mux.Router.URL [C19] delegate: arg0 == p.router && arg1 == strict && arg2 == p.pattern + pattern && arg3 == params
+//@   ensures [C19] results: result0 == callresult("mux.Router.URL", 1, 0) && result1 == callresult("mux.Router.URL", 1, 1)
+//
+//@ fn Prefix.Prefix
+//@   requires p != nil
+//@   callsonly [C19] mux.Prefix.Pattern, slices.Concat, mux.Router.Prefix
+//@   atcall mux.Router.Prefix [C19,C09] delegate: arg0 == p.router && arg1 == p.pattern + prefix && isConcat(arg2, m, p.ms)
+//@   ensures [C19] result: result == callresult("mux.Router.Prefix", 1, 0)
+//
+//@ fn Prefix.Resource
+//@   requires p != nil
+//@   callsonly [C19] mux.Prefix.Pattern, slices.Concat, mux.Router.Resource
+//@   atcall mux.Router.Resource [C19,C09] delegate: arg0 == p.router && arg1 == p.pattern + pattern && isConcat(arg2, m, p.ms)
+//@   ensures [C19] result: result == callresult("mux.Router.Resource", 1, 0)
+//
+//@ fn Prefix.Router
+//@   requires p != nil
+//@   nopanic
+//@   ensures [C19] value: result == p.router
+//
+//@ fn Resource.Handle
+//@   requires r != nil && r.router != nil && r.router.tree != nil
+//@   callsonly [C19] slices.Concat, mux.Router.Handle
+//@   atcall mux.Router.Handle [C19,C09] delegate: arg0 == r.router && arg1 == r.pattern && arg2 == h && isConcat(arg3, m, r.ms) && arg4 == methods
+//@   ensures [C19] self: result == r
+//
+//@ fn Resource.Get
+//@   requires r != nil && r.router != nil && r.router.tree != nil
+//@   callsonly [C19] mux.Resource.Handle
+//@   atcall mux.Resource.Handle [C19] delegate: arg0 == r && arg1 == h && arg2 == m && one(arg3, "GET")
+//@   ensures [C19] self: result == r
+//
+//@ fn Resource.Post
+//@   requires r != nil && r.router != nil && r.router.tree != nil
+//@   callsonly [C19] mux.Resource.Handle
+//@   atcall mux.Resource.Handle [C19] delegate: arg0 == r && arg1 == h && arg2 == m && one(arg3, "POST")
+//@   ensures [C19] self: result == r
+//
+//@ fn Resource.Delete
+//@   requires r != nil && r.router != nil && r.router.tree != nil
+//@   callsonly [C19] mux.Resource.Handle
+//@   atcall mux.Resource.Handle [C19] delegate: arg0 == r && arg1 == h && arg2 == m && one(arg3, "DELETE")
+//@   ensures [C19] self: result == r
+//
+//@ fn Resource.Put
+//@   requires r != nil && r.router != nil && r.router.tree != nil
+//@   callsonly [C19] mux.Resource.Handle
+//@   atcall mux.Resource.Handle [C19] delegate: arg0 == r && arg1 == h && arg2 == m && one(arg3, "PUT")
+//@   ensures [C19] self: result == r
+//
+//@ fn Resource.Patch
+//@   requires r != nil && r.router != nil && r.router.tree != nil
+//@   callsonly [C19] mux.Resource.Handle
+//@   atcall mux.Resource.Handle [C19] delegate: arg0 == r && arg1 == h && arg2 == m && one(arg3, "PATCH")
+//@   ensures [C19] self: result == r
+//
+//@ fn Resource.Any
+//@   requires r != nil && r.router != nil && r.router.tree != nil
+//@   callsonly [C19] mux.Resource.Handle
+//@   atcall mux.Resource.Handle [C19] delegate: arg0 == r && arg1 == h && arg2 == m && len(arg3) == 0
+//@   ensures [C19] self: result == r
+//
+//@ fn Resource.Remove
+//@   requires r != nil && r.router != nil && r.router.tree != nil
+//@   callsonly [C19] mux.Router.Remove
+//@   atcall mux.Router.Remove [C19] delegate: arg0 == r.router && arg1 == r.pattern && arg2 == methods
+//
+//@ fn Resource.Clean
+//@   requires r != nil && r.router != nil && r.router.tree != nil
+//@   callsonly [C19] mux.Router.Remove
+//@   atcall mux.Router.Remove [C19] delegate: arg0 == r.router && arg1 == r.pattern && len(arg2) == 0
+//
+//@ fn Resource.URL
+//@   requires r != nil && r.router != nil && r.router.tree != nil
+//@   callsonly [C19] mux.Resource.Pattern, mux.Router.URL
+//@   atcall mux.Router.URL [C19] delegate: arg0 == r.router && arg1 == strict && arg2 == r.pattern && arg3 == params
+//@   ensures [C19] results: result0 == callresult("mux.Router.URL", 1, 0) && result1 == callresult("mux.Router.URL", 1, 1)
+//
+//@ fn Resource.Router
+//@   requires r != nil
+//@   nopanic
+//@   ensures [C19] value: result == r.router
